@@ -20,8 +20,8 @@ def default_params(tier):
     p = progmod.default_params(tier, elems=True, forbid=["only", "provide", "inject_default", "negative", "aliases"])
     p["budget_mult"] = 5000
     p["max_prefix"] = 2
-    p["chain_max"] = 100 if tier == "quick" else 2000
-    p["chain_every"] = 8
+    p["chain_max"] = 700 if tier == "quick" else 2000
+    p["chain_every"] = 16 if tier == "quick" else 8
     return p
 
 
